@@ -61,7 +61,7 @@ def evaluate(d, thorough=False):
         ev["demo_output_tail"] = out[-600:]
         for tier in (["quick", "thorough"] if thorough else ["quick"]):
             t0 = time.time()
-            rc, out = sh("cd %s && ./verif check %s %s" % (ROOT, pid, tier), timeout=7200)
+            rc, out = sh("cd %s && VERIF_EVIDENCE_DIR=/verif/.run/evidence-mutated ./verif check %s %s" % (ROOT, pid, tier), timeout=7200)
             lines = [l for l in out.splitlines() if l.startswith("VIOLATION") or l.startswith("  ")]
             ev["check_" + tier] = {"exit": rc, "detected": rc == 1 and ("VIOLATION property=%s" % pid) in out, "wall_s": round(time.time() - t0, 1), "report": "\n".join(lines)[:1500]}
             if ev["check_" + tier]["detected"]:
